@@ -61,7 +61,9 @@ def ackley_grad(x: NDArrayFloat) -> NDArrayFloat:
         * np.sqrt(square_sum / ndim)
         * np.exp(-0.2 * np.sqrt(square_sum / ndim))
         / square_sum
-    ) - 2.0 * np.pi / ndim * np.sin(2.0 * np.pi * x)
+    ) + 2.0 * np.pi / ndim * np.sin(2.0 * np.pi * x) * np.exp(
+        1.0 / ndim * np.cos(2.0 * np.pi * x).sum()
+    )
 
 
 def beale(x: NDArrayFloat) -> float:
